@@ -2,7 +2,7 @@
    Statement of record for the key part (this file) — the sign-bytes part is in the second half once Proto.v is in place.
    The "never panics or hangs" clause is about Go run-time behaviour and is exercised by the harness (direct violations). *)
 From Coq Require Import NArith List Bool.
-From V Require Import U64 Bytes Extracted Keys KeysProofs.
+From V Require Import U64 Bytes Extracted Keys KeysProofs ExtractedKeys KeysGen.
 Import ListNotations.
 Local Open Scope N_scope.
 
@@ -66,6 +66,31 @@ Theorem C19_join_truncation_refuted : exists a b : list bytes, a <> b /\ join a 
 Proof. exact join_truncation_refuted. Qed.
 Theorem C19_join_truncation_decode_refuted : exists s : bytes, decode (join [[13]; s]) = None.
 Proof. exact join_truncation_decode_refuted. Qed.
+
+(* ---- the tie to the source for the key schema is a THEOREM, not only a differential run: gen/ExtractedKeys.v holds the bodies of
+   the constructors of fsm/key.go translated node by node on every run (JoinLenPrefix -> join, append -> ++, formatUint64 -> be64);
+   [src_key] dispatches to them.  The source's constructors are the schema, hence injective and prefix-free; the source's
+   iteration prefixes select exactly their own family and component; the source's order-id check is [order_id_ok]. *)
+Theorem C19_source_constructors_are_the_schema : forall k, src_key k = encode_key k.
+Proof. exact src_key_is_schema. Qed.
+Print Assumptions C19_source_constructors_are_the_schema.
+Theorem C19_source_keys_injective : forall k1 k2, skey_wf k1 -> skey_wf k2 -> src_key k1 = src_key k2 -> k1 = k2.
+Proof. exact src_keys_injective. Qed.
+Print Assumptions C19_source_keys_injective.
+Theorem C19_source_keys_prefix_free : forall k1 k2, skey_wf k1 -> skey_wf k2 -> is_prefix (src_key k1) (src_key k2) -> k1 = k2.
+Proof. exact src_keys_prefix_free. Qed.
+Print Assumptions C19_source_keys_prefix_free.
+Theorem C19_source_committee_prefix_selects_its_chain : forall c k, u64 c -> skey_wf k ->
+  is_prefix (CommitteePrefix c) (src_key k) -> exists s a, k = KCommittee c s a.
+Proof. exact src_committee_prefix_exact. Qed.
+Print Assumptions C19_source_committee_prefix_selects_its_chain.
+Theorem C19_source_committee_prefix_complete : forall c a s, is_prefix (CommitteePrefix c) (KeyForCommittee c a s).
+Proof. exact src_committee_prefix. Qed.
+Theorem C19_source_order_id_check : forall id, checkOrderId (N.of_nat (length id)) = order_id_ok id.
+Proof. exact src_checkOrderId. Qed.
+Print Assumptions C19_source_order_id_check.
+Example ex_src_key : KeyForCommittee 2 [9;9] 5 = [1;4; 8;0;0;0;0;0;0;0;2; 8;0;0;0;0;0;0;0;5; 2;9;9].
+Proof. vm_compute. reflexivity. Qed.
 
 (* non-vacuity *)
 Example ex_key : encode_key (KUnstaking 7 [1;2;3]) = [1;5; 8;0;0;0;0;0;0;0;7; 3;1;2;3].
